@@ -7,6 +7,7 @@ import (
 	"fmt"
 	"io"
 	"net"
+	"reflect"
 	"strconv"
 	"strings"
 	"sync"
@@ -216,10 +217,12 @@ func c29AltMultiPass(tmpl string, groups []string) string {
 
 type c29NetConn struct{ remote net.Addr }
 
-func (c *c29NetConn) Read([]byte) (int, error)         { return 0, io.EOF }
-func (c *c29NetConn) Write(b []byte) (int, error)      { return len(b), nil }
-func (c *c29NetConn) Close() error                     { return nil }
-func (c *c29NetConn) LocalAddr() net.Addr              { return &net.TCPAddr{IP: net.IPv4(127, 0, 0, 1), Port: 25565} }
+func (c *c29NetConn) Read([]byte) (int, error)    { return 0, io.EOF }
+func (c *c29NetConn) Write(b []byte) (int, error) { return len(b), nil }
+func (c *c29NetConn) Close() error                { return nil }
+func (c *c29NetConn) LocalAddr() net.Addr {
+	return &net.TCPAddr{IP: net.IPv4(127, 0, 0, 1), Port: 25565}
+}
 func (c *c29NetConn) RemoteAddr() net.Addr             { return c.remote }
 func (c *c29NetConn) SetDeadline(time.Time) error      { return nil }
 func (c *c29NetConn) SetReadDeadline(time.Time) error  { return nil }
@@ -507,6 +510,13 @@ func c29Run(c c29Case) (res verifkit.Result) {
 		}
 	}
 doneBackends:
+
+	// 4b. routing one connection must not change the configured routes: the
+	// backend templates are shared by every later connection (whose wildcards
+	// capture different text).
+	if after := c29Config(c.Routes, ""); !reflect.DeepEqual(routes, after) {
+		return verifkit.Fail("config:routes-mutated-by-routing", "the configured route list changed while routing host %q: now %+v, configured %+v", c.Host, routes, after)
+	}
 
 	// 5. no match => Forward closes the client and dials nothing.
 	if wi < 0 {
